@@ -95,6 +95,10 @@ def gen_session(ctx, template=None):
     # append
     A = lasio.rand_points(rng, h, rng.choice([0, 1, 4]), "random")
     raw0 = lasio.write_las(h, A, evl)
+    if evl and rng.random() < 0.5:
+        gp = rng.choice([1, ps, 2 * ps + 3])
+        raw0 = lasio.with_gap(raw0, gp, fill=rng.choice([0x00, 0xAA])) or raw0
+        desc["gap"] = gp
     st = sessions.LogStream(raw0)
     ap = LasAppender(st, closefd=False)
     st.trace.clear()
@@ -190,6 +194,42 @@ def check_discipline(s):
     return None
 
 
+def nonascii_user_id(img):
+    """True when some VLR/EVLR user id of the image (decoded leniently, as the reader does) holds a byte >= 128. The Coq
+    model treats every such id as undecodable (ASSUMPTION: 'decodable' = ASCII); CPython accepts it when the bytes happen to be valid
+    UTF-8. Such images are compared on the property only, not model-vs-implementation."""
+    try:
+        if len(img) < 227:
+            return False
+        off = int.from_bytes(img[96:100], "little")
+        hs = int.from_bytes(img[94:96], "little")
+        nv = min(int.from_bytes(img[100:104], "little"), 1000)
+        minor = img[25]
+        pos = hs
+        stream = img[:max(off, 227)]
+        for _ in range(nv):
+            uid = stream[pos + 2:pos + 18].split(b"\0")[0]
+            if any(b >= 128 for b in uid):
+                return True
+            ln = int.from_bytes(stream[pos + 20:pos + 22], "little")
+            pos += 54 + ln
+        if minor >= 4:
+            st = int.from_bytes(img[235:243], "little")
+            ne = min(int.from_bytes(img[243:247], "little"), 1000)
+            pos = st
+            for _ in range(ne):
+                uid = img[pos + 2:pos + 18].split(b"\0")[0]
+                if any(b >= 128 for b in uid):
+                    return True
+                ln = int.from_bytes(img[pos + 20:pos + 28], "little")
+                pos += 60 + ln
+                if pos > len(img):
+                    break
+    except Exception:
+        return False
+    return False
+
+
 _DATA = None
 
 
@@ -234,6 +274,9 @@ def correspond(ctx):
             good = t[0] == "err"
         else:
             good = False
+        if not good and t[0] == "err" and im[0] == "ok" and nonascii_user_id(img):
+            ctx.count("outside-model:non-ascii-user-id-valid-utf8")
+            continue
         if not good:
             dis.append({"kind": f"read of crash image ({s['kind']}, {label.split(' ')[0]})", "input": {"session": s["desc"], "image": label, "image_hex": img.hex() if len(img) < 3000 else img[:3000].hex()},
                         "model": mo[:60], "impl": im[0] + (" " + im[1] if im[0] == "err" else "")})
